@@ -83,7 +83,10 @@ def generate(repo: Repo, con: Contract, k=None, only_variant=None) -> Generated:
                                                         variant=vi, probes=probes, kind="must-raise", extra=exc))
                     elif kind == "raise":
                         e: PyRaise = payload
-                        allowed = [c for t, c in rconds.items() if exc_matches(e.exc_type, t)]
+                        rc = rconds
+                        if e.site == "line-ordinal" and hasattr(con, "raises_direct"):
+                            rc = con.raises_direct(ex, a)      # a `raise` statement of the function itself (not propagated from a callee)
+                        allowed = [c for t, c in rc.items() if exc_matches(e.exc_type, t)]
                         goal = L.Or(*allowed) if allowed else L.F()
                         G.instances.append(Instance(f"{con.qual}/raise.{e.exc_type}", L, list(pc), goal,
                                                     note=e.site, variant=vi, probes=probes, kind="raise",
